@@ -90,6 +90,9 @@ struct MObj {
     /// may no longer be used by later operations (holds a reference to a released object)
     tainted: bool,
     digest: u64,
+    /// allocation sequence number of the box in the ledger: with real releases (sanitizer flavours) the allocator
+    /// hands the address of a released box out again, so identity is (address, sequence number)
+    seq: u64,
 }
 
 fn describe_ops(ops: &[GOp]) -> String {
@@ -128,7 +131,9 @@ fn run_driver(ops: &[GOp], st: &mut Stats, which: Which, real_frees: bool) -> Re
                         }
                         _ => unreachable!(),
                     };
-                    objs.push(MObj { obj, is_array, elems, managed: true, alive: true, tainted: false, digest: 0 });
+                    let a = verif::addr(obj);
+                    let seq = verif::ledger().iter().find(|e| e.0 == a && e.2).map(|e| e.3).unwrap_or(0);
+                    objs.push(MObj { obj, is_array, elems, managed: true, alive: true, tainted: false, digest: 0, seq });
                     st.count("driver:alloc");
                 }
                 GOp::Link(a, b) => {
@@ -216,9 +221,10 @@ fn run_driver(ops: &[GOp], st: &mut Stats, which: Which, real_frees: bool) -> Re
                         }
                     }
                     // compare with the ledger
+                    let led: std::collections::HashMap<usize, (bool, u64)> = verif::ledger().into_iter().map(|e| (e.0, (e.2, e.3))).collect();
                     for (i, o) in objs.iter().enumerate() {
-                        // (in ledger mode a released box has no entry any more)
-                        let live = verif::is_live(verif::addr(o.obj)).or(Some(false));
+                        // (in ledger mode a released box has no entry any more, or the entry of a newer box at the same address)
+                        let live = Some(matches!(led.get(&verif::addr(o.obj)), Some((true, s)) if *s == o.seq));
                         if o.alive && live != Some(true) {
                             failure = Some(("driver:reachable-or-unmanaged-object-released".to_string(), format!("after step {} ({:?}) object #{} should be allocated but is released", step, op, i)));
                             return;
